@@ -601,6 +601,8 @@ def foreign_operands(job):
         for o in FOREIGN_OPERANDS:
             for left in ("x", "f"):
                 stmts.append(call.format(x=left, y="y", b="b", o=o))
+    if job.get("only_ops"):
+        stmts = [st for st in stmts if any((" %s " % op) in st for op in job["only_ops"])]
     rnd.shuffle(stmts)
     stmts = stmts[:job.get("n", 400)]
     big = [(1 << 60) + 1, -(1 << 70) + 3, (1 << 53) + 1, (1 << 64) - 1, 3 * (1 << 55) + 5]
